@@ -387,6 +387,8 @@ def config_uncut(ctx):
                     walk(k)
                 return
             for k in n.kids:
+                if n.kind == "phi" and peel(k).kind == "call" and method_name(peel(k).a) == "FromResidual::from_residual":
+                    continue        # the None propagation alternative of `?` carries no text
                 walk(k)
         walk(tree)
     ctx.check(bool(stored) and not cut, "config-uncut", stored[0][0] if stored else it.where(),
